@@ -280,7 +280,7 @@ def st_transform(files):
 def plan(tier, seed):
     if tier == "quick":
         files = corpus.SMALL
-        specs = [{"kind": "transform", "files": files, "examples": 16, "seed": seed * 1000 + k} for k in range(16)]
+        specs = [{"kind": "transform", "files": files, "examples": 40, "seed": seed * 1000 + k} for k in range(16)]
         specs += [{"kind": "formats", "files": [f]} for f in files]
     else:
         files = corpus.SMALL + corpus.MEDIUM + ["4qln.cif", "6g90_1.cif"]
